@@ -624,6 +624,27 @@ def fuse_nested_comprehensions(tree):
                 return node
             g = node.generators[0]
             inner = g.iter
+            if isinstance(inner, (ast.ListComp, ast.GeneratorExp)) and len(inner.generators) == 1 and isinstance(g.target, ast.Tuple) and not g.is_async \
+                    and isinstance(inner.elt, ast.Tuple) and len(inner.elt.elts) == len(g.target.elts) and all(isinstance(t, ast.Name) for t in g.target.elts):
+                # `for a, b in ((E1, E2) for T in R)`: component-wise
+                ig = inner.generators[0]
+                parts = ([node.key, node.value] if isinstance(node, ast.DictComp) else [node.elt]) + list(g.ifs)
+                names = [t.id for t in g.target.elts]
+                inner_names = {n.id for n in ast.walk(ig.target) if isinstance(n, ast.Name)}
+                outer_free = {n.id for p_ in parts for n in ast.walk(p_) if isinstance(n, ast.Name)} - set(names)
+                uses = {x_: sum(1 for p_ in parts for n in ast.walk(p_) if isinstance(n, ast.Name) and n.id == x_ and isinstance(n.ctx, ast.Load)) for x_ in names}
+                if len(set(names)) == len(names) and not (inner_names & outer_free) and not (inner_names & set(names)) and \
+                        all(uses[x_] <= 1 or not any(isinstance(n, ast.Call) for n in ast.walk(e_)) for x_, e_ in zip(names, inner.elt.elts)):
+                    for x_, e_ in zip(names, inner.elt.elts):
+                        sub = Sub(x_, e_)
+                        if isinstance(node, ast.DictComp):
+                            node.key, node.value = sub.visit(node.key), sub.visit(node.value)
+                        else:
+                            node.elt = sub.visit(node.elt)
+                        g.ifs = [sub.visit(t) for t in g.ifs]
+                    node.generators = [ast.comprehension(target=ig.target, iter=ig.iter, ifs=list(ig.ifs) + list(g.ifs), is_async=0)]
+                    count += 1
+                return node
             if not (isinstance(inner, (ast.ListComp, ast.GeneratorExp)) and len(inner.generators) == 1 and isinstance(g.target, ast.Name) and not g.is_async):
                 return node
             x = g.target.id
@@ -1940,4 +1961,46 @@ def expand_prologue_decorators(tree):
                 count += 1
     if count:
         ast.fix_missing_locations(tree)
+    return count
+
+
+def class_constant_tables(tree):
+    """N50a: a class-level table of constants (`_NAMES = ('a', 'b')`, never re-bound through self / cls / the class) that a method of the class iterates over
+    (`for x in self._NAMES:`) is written out at the loop, so that the literal-loop unrolling (N14) applies to it as it does to a table written in place."""
+    import copy
+    count = 0
+    stores = {(n.value.id if isinstance(n.value, ast.Name) else None, n.attr) for n in ast.walk(tree) if isinstance(n, ast.Attribute) and isinstance(n.ctx, (ast.Store, ast.Del))}
+    for cdef in [c for c in ast.walk(tree) if isinstance(c, ast.ClassDef)]:
+        tables = {}
+        for st in cdef.body:
+            if isinstance(st, ast.Assign) and len(st.targets) == 1 and isinstance(st.targets[0], ast.Name) and isinstance(st.value, (ast.Tuple, ast.List)) \
+                    and 0 < len(st.value.elts) <= 16 and all(isinstance(e, ast.Constant) for e in st.value.elts):
+                name = st.targets[0].id
+                if sum(1 for x in cdef.body if isinstance(x, ast.Assign) and any(isinstance(t, ast.Name) and t.id == name for t in x.targets)) == 1 \
+                        and not any(a == name for _, a in stores):
+                    tables[name] = st.value
+        if not tables:
+            continue
+        for l in [x for x in ast.walk(cdef) if isinstance(x, ast.For)]:
+            it = l.iter
+            if isinstance(it, ast.Attribute) and it.attr in tables and isinstance(it.value, ast.Name) and it.value.id in ('self', 'cls', cdef.name):
+                l.iter = ast.copy_location(copy.deepcopy(tables[it.attr]), it)
+                count += 1
+    return count
+
+
+def constant_getattr(tree):
+    """N50b: `getattr(obj, 'name')` with a constant identifier and no default is the attribute access `obj.name`"""
+    count = 0
+
+    class T(ast.NodeTransformer):
+        def visit_Call(self, n):
+            nonlocal count
+            self.generic_visit(n)
+            if isinstance(n.func, ast.Name) and n.func.id == 'getattr' and len(n.args) == 2 and not n.keywords and isinstance(n.args[1], ast.Constant) \
+                    and isinstance(n.args[1].value, str) and n.args[1].value.isidentifier():
+                count += 1
+                return ast.copy_location(ast.Attribute(value=n.args[0], attr=n.args[1].value, ctx=ast.Load()), n)
+            return n
+    T().visit(tree)
     return count
